@@ -8,6 +8,7 @@ import FitProps.C16
 import FitProps.C04
 import FitProps.C08
 import FitModel.Generated.DecApiStdFactory
+import FitProps.EndToEndDescLemmas
 /-!
 # Links between the models of the decoder
 
@@ -185,6 +186,10 @@ theorem Link_stdFactory_ok : facFdOK stdFactory = true ∧ facBtOK stdFactory = 
   obtain ⟨x, _, rfl⟩ := he
   simp at hc
 
+/-- the standard factory knows the three key members of `field_description` — the hypothesis `keysKnown` under which the
+message validator guarantees `Wire.msgsDescOK` (`C01_e2e_validator_descs`), and what `Fit.Wire` / `Fit.DecProg` hard-code -/
+theorem Link_stdFactory_keys : E2E.keysKnown stdFactory = true := by decide +kernel
+
 /-- non-vacuity: the hypotheses of `Link_decprog_eq_api` are met by the standard factory, every option and the sample file of
 C04 (file_id and a record); there the loop returns one FIT with two messages -/
 example : (∀ b ∈ C04.sampleFit, b < 256) ∧ C04.sampleFit.length < 4294967296 ∧
@@ -308,57 +313,47 @@ example : (FitFormat.segments [14, 32, 0, 0, 16, 0, 0, 0, 46, 70, 73, 84, 0, 0, 
 
 /-! ## (A) the wire model against (D) -/
 
-/-- the FULL link (A) = (D) in the common form `WEv` (definitions; per message header byte, number and the bytes of the fields;
-per sequence header and CRCs; error class), for every stream. FALSE: `Link_wire_full_false`. -/
-def Link_wire_eq_decprog_full : Prop :=
-  ∀ (tsKnown : Nat → Bool) (chk : Bool) (bs : List Nat), (∀ b ∈ bs, b < 256) →
-    wireObsA (Wire.decodeStream tsKnown chk (bs.length + 1) true bs) =
-      wireObsD (runExact (DecProg.decodeLoop chk (bs.length + 1) true []) bs)
-
-/-- **(A) = (D) wherever (D) does not report an invalid base type.** For EVERY byte list (no hypothesis on the bytes), both
-checksum settings, every fuel and whatever the factory tells (A) about timestamps: if the run of the reader-client model (D)
-does not end with `invalidBaseType`, the wire model (A) of C01 and (D) report the same definitions, the same messages (header
-byte, global number, bytes of every field of non-zero size), the same sequence headers and CRCs and the same error class.
-(Where (D) does end so — an invalid base type in a definition, where (A) agrees, or in a field description a developer field
-refers to, where (A) is wrong: `Link_wire_full_false` — nothing is claimed.) -/
-theorem Link_wire_eq_decprog_partial (tsKnown : Nat → Bool) (chk : Bool) (bs : List Nat) (fuel : Nat)
-    (h : (runExact (DecProg.decodeLoop chk fuel true []) bs).status ≠ some .invalidBaseType) :
+/-- **(A) = (D), for every byte list.** No hypothesis on the bytes; both checksum settings, every fuel, whatever the factory tells
+(A) about timestamps: the wire model (A) of C01 (`FitModel/Wire.lean`) and the reader-client model (D) (`FitModel/DecProg.lean`,
+on the exact-n reader) report the same definitions, the same messages (header byte, global number, bytes of every field of
+non-zero size), the same sequence headers and CRCs and the same error class — the invalid base type of a definition and the
+invalid base type of a field description a developer field refers to included: both keep the field descriptions of the sequence
+(first match wins, dropped at the end of the sequence) as `decodeMessageData` / `decodeDeveloperFields` do.
+(Until (A) was repaired — notes/links.md D1 — this held only where (D) did not end with `invalidBaseType`.) -/
+theorem Link_wire_eq_decprog (tsKnown : Nat → Bool) (chk : Bool) (bs : List Nat) (fuel : Nat) :
     wireObsA (Wire.decodeStream tsKnown chk fuel true bs) = wireObsD (runExact (DecProg.decodeLoop chk fuel true []) bs) := by
-  have := streamW tsKnown chk fuel true [] bs h
-  simpa [wireObsA] using this.symm
+  have := streamW tsKnown chk fuel true [] bs
+  simpa [wireObsA, QW] using this.symm
 
-/-- the stream of disagreement D1 (notes/links.md): a `field_description` with fit_base_type_id 0x55, then a developer field
-that refers to it -/
+/-- the stream of the former disagreement D1 (notes/links.md): a `field_description` with fit_base_type_id 0x55, then a
+developer field that refers to it -/
 def d1Stream : List Nat :=
   [0x0e, 0x20, 0, 0, 0x23, 0, 0, 0, 0x2e, 0x46, 0x49, 0x54, 0, 0,
    0x40, 0, 0, 0xce, 0, 3, 0, 1, 2, 1, 1, 2, 2, 1, 2,   0, 0, 0, 0x55,
    0x61, 0, 0, 0x14, 0, 1, 3, 1, 2, 1, 0, 1, 0,   1, 0x50, 7,   0, 0]
 
-/-- **(A) ≠ (D) — a genuine disagreement between two models, decided by the kernel.** On `d1Stream` the reader-client model
-(D) ends with `invalidBaseType` (as the real decoder does: `decodeDeveloperFields` rejects a field description whose base type
-is not valid; the API model (C) agrees by `Link_decprog_eq_api`), the wire model (A) of C01 accepts the record and the
-sequence. The family of (A) never generated such a stream; `corpus/decw.txt` now holds it. -/
-theorem Link_wire_full_false : ¬ Link_wire_eq_decprog_full ∧
+/-- **the former disagreement D1, decided by the kernel:** on `d1Stream` both models end with `invalidBaseType` after the same
+events (as the real decoder does: `decodeDeveloperFields` rejects a field description whose base type is not valid); the
+same stream with the description's base type 0x02 is accepted by both. -/
+theorem Link_wire_d1_agree :
     (runExact (DecProg.decodeLoop false (d1Stream.length + 1) true []) d1Stream).status = some .invalidBaseType ∧
-    (Wire.decodeStream (fun _ => true) false (d1Stream.length + 1) true d1Stream).2 = none ∧
-    fdValidA (Wire.decodeStream (fun _ => true) false (d1Stream.length + 1) true d1Stream).1 = false := by
-  refine ⟨fun h => ?_, by decide +kernel, by decide +kernel, by decide +kernel⟩
-  have := h (fun _ => true) false d1Stream (by decide)
-  revert this
-  decide +kernel
+    (Wire.decodeStream (fun _ => true) false (d1Stream.length + 1) true d1Stream).2 = some .invalidBaseType ∧
+    (Wire.decodeStream (fun _ => true) false (d1Stream.length + 1) true (d1Stream.set 32 2)).2 = none := by
+  refine ⟨by decide +kernel, by decide +kernel, by decide +kernel⟩
 
 /-- **C01's round trip seen by (D).** For every chain of encoder outputs (any options, any message lists that pass C01's
-typing hypotheses): if the decoder does not report an invalid base type on it, then what the reader-client model (D) observes
-is the run C01 describes — no error, one sequence per encoded sequence, and messages whose header, number and FIELD BYTES are
-those written (`FitMatches`); in particular every `msg` event of (D) carries the bytes the encoder marshalled. -/
+hypotheses — typing, and no developer field written under a field description with an invalid base type, `msgsDescOK`, which
+the encoder's message validator guarantees): what the reader-client model (D) observes is the run C01 describes — no error,
+one sequence per encoded sequence, and messages whose header, number and FIELD BYTES are those written (`FitMatches`); in
+particular every `msg` event of (D) carries the bytes the encoder marshalled. No hypothesis on (D)'s outcome is left. -/
 theorem Link_C01_chain_decprog (tsKnown : Nat → Bool) (chk : Bool) (o : Wire.Opts) (ho : Wire.OptsOK o)
     (fits : List (Wire.Hdr × List Wire.WMsg)) (hne : fits ≠ []) (hall : ∀ f ∈ fits, Wire.FitOK o f.1 f.2)
-    (h : (runExact (DecProg.decodeLoop chk (fits.length + 1) true []) (Wire.encodeChain o fits)).status ≠ some .invalidBaseType) :
+    (hdesc : ∀ f ∈ fits, Wire.msgsDescOK [] f.2 = true) :
     ∃ evs, wireObsD (runExact (DecProg.decodeLoop chk (fits.length + 1) true []) (Wire.encodeChain o fits)) = (evs.map wevOfA, none) ∧
       Wire.AllMatch (Wire.FitMatches o) fits (Wire.seqsOf evs) := by
-  obtain ⟨evs, hd, hm⟩ := C01.C01_wire_chain tsKnown chk o ho fits hne hall
+  obtain ⟨evs, hd, hm⟩ := C01.C01_wire_chain tsKnown chk o ho fits hne hall hdesc
   refine ⟨evs, ?_, hm⟩
-  rw [← Link_wire_eq_decprog_partial tsKnown chk _ _ h, hd]
+  rw [← Link_wire_eq_decprog tsKnown chk _ _, hd]
   rfl
 
 /-- non-vacuity: on C01's example chain (compressed timestamps, developer fields, big-endian, LRU of 2) the decoder reports no
@@ -373,10 +368,10 @@ theorem Link_C01_chain_api (tsKnown : Nat → Bool) (oa : Opts) (o : Wire.Opts) 
     (fits : List (Wire.Hdr × List Wire.WMsg)) (hne : fits ≠ []) (hall : ∀ f ∈ fits, Wire.FitOK o f.1 f.2)
     (hb : DecApi.IsBytes (Wire.encodeChain o fits)) (hlen : (Wire.encodeChain o fits).length < 4294967296)
     (hfac : FacOK oa.fac) (hbt : facBtOK oa.fac = true) (hfd : facFdOK oa.fac = true)
-    (h : (runExact (DecProg.decodeLoop oa.chk (fits.length + 1) true []) (Wire.encodeChain o fits)).status ≠ some .invalidBaseType) :
+    (hdesc : ∀ f ∈ fits, Wire.msgsDescOK [] f.2 = true) :
     ∃ out evs, normCalls (apiLoop (fits.length + 1) (Api.fresh oa (Wire.encodeChain o fits))) = apiOf oa out ∧
       wireObsD out = (evs.map wevOfA, none) ∧ Wire.AllMatch (Wire.FitMatches o) fits (Wire.seqsOf evs) := by
-  obtain ⟨evs, h1, h2⟩ := Link_C01_chain_decprog tsKnown oa.chk o ho fits hne hall h
+  obtain ⟨evs, h1, h2⟩ := Link_C01_chain_decprog tsKnown oa.chk o ho fits hne hall hdesc
   exact ⟨_, evs, Link_decprog_eq_api oa _ _ hb hlen hfac hbt hfd, h1, h2⟩
 
 end Fit.Links
